@@ -87,9 +87,23 @@ def check_validation(report):
 
     facts = [({canon(g) for g in guards}, st) for guards, st, _ in records]
 
+    def gating_ok(fs, target):
+        """besides the condition that defines the error, a branch may only be gated by the OTHER checks having passed (or by there being
+        fields to check): any other conjunct (a constant, an unrelated test) could switch the check off"""
+        for f in fs:
+            if f[0] == "for" or f == target:
+                continue
+            src, pol = f
+            okg = (src.startswith(f"{SEL} in ") and pol is False) or (src == MD and pol is True) or (src == f"{MS}.auto_populated_fields" and pol is True) \
+                or (src.startswith("OR(") and "_streaming" in src and pol is False) or (src.endswith("_streaming") and pol is False) \
+                or (src.endswith(".fields") and " in " in src and pol is True)
+            if not okg:
+                return False
+        return True
+
     def has(pred, what):
         r.instance(what)
-        ok = any(any(pred(f) for f in fs) for fs, _ in facts)
+        ok = any(any(pred(f) and gating_ok(fs, f) for f in fs) for fs, _ in facts)
         r.check(ok, p, fn.lineno, f"error branch: {what}", f"enforce_valid_method_settings must record an error when {what}")
         return ok
     dup = [f for fs, _ in facts for f in fs if f[0] != "for" and f[1] is True and f[0].startswith(f"{SEL} in ")]
